@@ -75,6 +75,16 @@ impl Api {
     fn row_at_a_time(self) -> bool {
         matches!(self, Api::Prepared | Api::Cached)
     }
+    /// steps left out by the `skip` variant of a case: exactly the steps behind which a recorded finding hides
+    /// everything else (KF-C43-07: DELETE of a row loaded by insert_batch fails; KF-C43-02: every INSERT
+    /// statement after a bulk_insert collides with its row ids)
+    fn skipped(self) -> &'static [&'static str] {
+        match self {
+            Api::Batch | Api::BatchSchema => &["delete-after"],
+            Api::Bulk => &["insert-after", "following-insert", "autoinc-probe"],
+            Api::Prepared | Api::Cached => &[],
+        }
+    }
 }
 
 #[derive(Clone, Copy, PartialEq, Eq, Hash, Debug, PartialOrd, Ord)]
@@ -234,14 +244,18 @@ struct Case {
     kind: Kind,
     pre: Pre,
     batch: BatchSpec,
+    /// second look behind a known defect: the history leaves out the steps that are known to diverge for this
+    /// API (`Api::skipped`), so that the steps behind them are compared too
+    skip: bool,
 }
 impl Case {
     fn json(&self) -> Value {
-        json!({"api": self.api.name(), "kind": self.kind.name(), "pre": self.pre.name(), "batch": self.batch.json(),
+        json!({"api": self.api.name(), "kind": self.kind.name(), "pre": self.pre.name(), "batch": self.batch.json(), "skip": self.skip,
+               "skipped-steps": if self.skip { self.api.skipped().to_vec() } else { vec![] },
                "rows": self.batch.rows().iter().take(8).map(|r| show_r2(r)).collect::<Vec<_>>(), "ddl": self.kind.ddl()})
     }
     fn from_json(v: &Value) -> Option<Case> {
-        Some(Case { api: Api::parse(v["api"].as_str()?)?, kind: Kind::parse(v["kind"].as_str()?)?, pre: Pre::parse(v["pre"].as_str()?)?, batch: BatchSpec::from_json(&v["batch"])? })
+        Some(Case { api: Api::parse(v["api"].as_str()?)?, kind: Kind::parse(v["kind"].as_str()?)?, pre: Pre::parse(v["pre"].as_str()?)?, batch: BatchSpec::from_json(&v["batch"])?, skip: v["skip"].as_bool().unwrap_or(false) })
     }
 }
 fn show_r2(r: &R2) -> String {
@@ -483,7 +497,7 @@ impl Twins {
                 ll,
             ));
         }
-        if let Some(Some(k)) = self.keys.first() {
+        if let Some(k) = self.keys.iter().flatten().next() {
             if let Some(p) = explain(da, &format!("SELECT * FROM {table} WHERE k = {k}")) {
                 if p.contains("IndexScan") {
                     st.index_plans += 1;
@@ -775,9 +789,16 @@ fn run_case(scratch: &Path, c: &Case, plant: Plant) -> Out {
         BatchSpec::Explicit(_) => (2, 1),
         BatchSpec::Gen { .. } => (GEN_BASE + 2, GEN_BASE + 1),
     };
-    step!(tw.both("insert-after", "error-class", &format!("INSERT INTO {table} VALUES (7, 70)"), st));
-    step!(tw.both("update-after", "error-class", &format!("UPDATE {table} SET v = 99 WHERE k = {ku}"), st));
-    step!(tw.both("delete-after", "error-class", &format!("DELETE FROM {table} WHERE k = {kd}"), st));
+    let on = |step: &str| !(c.skip && c.api.skipped().contains(&step));
+    if on("insert-after") {
+        step!(tw.both("insert-after", "error-class", &format!("INSERT INTO {table} VALUES (7, 70)"), st));
+    }
+    if on("update-after") {
+        step!(tw.both("update-after", "error-class", &format!("UPDATE {table} SET v = 99 WHERE k = {ku}"), st));
+    }
+    if on("delete-after") {
+        step!(tw.both("delete-after", "error-class", &format!("DELETE FROM {table} WHERE k = {kd}"), st));
+    }
     // second bulk call after ordinary DML
     match tw.bulk_step("second-bulk", &BATCH2, st, &mut out.notes) {
         Err(v) => {
@@ -788,61 +809,62 @@ fn run_case(scratch: &Path, c: &Case, plant: Plant) -> Out {
         Ok(true) => out.steps += 1,
     }
     // following insert of every key
-    for k in [Some(1), Some(2), Some(3), Some(8), None] {
-        step!(tw.both("following-insert", "following-insert", &format!("INSERT INTO {table} VALUES ({}, 1)", sql_lit(k)), st));
+    if on("following-insert") {
+        for k in [Some(1), Some(2), Some(3), Some(8), None] {
+            step!(tw.both("following-insert", "following-insert", &format!("INSERT INTO {table} VALUES ({}, 1)", sql_lit(k)), st));
+        }
     }
     // next AUTO_INCREMENT value
-    step!(tw.both("autoinc-probe", "autoinc", &format!("INSERT INTO {table} (v) VALUES (777)"), st));
+    if on("autoinc-probe") {
+        step!(tw.both("autoinc-probe", "autoinc", &format!("INSERT INTO {table} (v) VALUES (777)"), st));
+    }
     out
 }
 
 // ---------------------------------------------------------------------------
 // shrinking + signature
 // ---------------------------------------------------------------------------
+/// `<placement>:<batch class>[@<step>]` of a (minimal) case; one class only: the first that applies of
+/// empty, null-key, dup-in-batch, dup-with-existing, null-value, plain (batches of generated size > 2:
+/// `<order>-size>=N`, N = the smallest size of the list that still fails).
 fn shape(c: &Case, v: &Viol, sizes: &[usize]) -> String {
-    let mut f: Vec<String> = vec![];
-    match c.pre {
-        Pre::None => {}
-        Pre::Rows => f.push("after-dml".into()),
-        Pre::ReopenEmpty => f.push("after-reopen".into()),
-        Pre::RowsReopen => f.push("after-reopen-rows".into()),
-    }
+    let placement = match c.pre {
+        Pre::None => "fresh",
+        Pre::Rows => "after-dml",
+        Pre::ReopenEmpty => "after-reopen",
+        Pre::RowsReopen => "after-reopen-rows",
+    };
     let rows = c.batch.rows();
     let small = match &c.batch {
         BatchSpec::Explicit(_) => true,
         BatchSpec::Gen { n, .. } => *n <= 2,
     };
-    if small {
+    let class = if small {
         let keys: Vec<i64> = rows.iter().filter_map(|r| r.0).collect();
         let mut s = keys.clone();
         s.sort();
         s.dedup();
         if rows.is_empty() {
-            f.push("empty".into());
-        }
-        if s.len() < keys.len() {
-            f.push("dup-in-batch".into());
-        }
-        if c.pre.has_rows() && keys.iter().any(|k| PRE_ROWS.iter().any(|p| p.0 == Some(*k))) {
-            f.push("dup-with-existing".into());
-        }
-        if rows.iter().any(|r| r.0.is_none()) {
-            f.push("null-key".into());
-        }
-        if rows.iter().any(|r| r.1.is_none()) {
-            f.push("null-value".into());
+            "empty".to_string()
+        } else if rows.iter().any(|r| r.0.is_none()) {
+            "null-key".to_string()
+        } else if s.len() < keys.len() {
+            "dup-in-batch".to_string()
+        } else if c.pre.has_rows() && keys.iter().any(|k| PRE_ROWS.iter().any(|p| p.0 == Some(*k))) {
+            "dup-with-existing".to_string()
+        } else if rows.iter().any(|r| r.1.is_none()) {
+            "null-value".to_string()
+        } else {
+            "plain".to_string()
         }
     } else if let BatchSpec::Gen { order, n } = &c.batch {
         let _ = sizes;
-        f.push(format!("{}-size>={}", order.name(), n));
-    }
-    if f.is_empty() {
-        f.push("plain".into());
-    }
-    if v.step != "bulk" {
-        f.push(format!("at:{}", v.step));
-    }
-    f.join("+")
+        format!("{}-size>={}", order.name(), n)
+    } else {
+        unreachable!()
+    };
+    let step = if v.step != "bulk" { format!("@{}", v.step) } else { String::new() };
+    format!("{placement}:{class}{step}")
 }
 fn signature(c: &Case, v: &Viol, sizes: &[usize]) -> String {
     format!("C43/{}/{}/{}/{}", c.api.name(), c.kind.name(), shape(c, v, sizes), v.layer)
@@ -969,30 +991,36 @@ fn sizes(ctx: &Ctx) -> Vec<usize> {
 
 fn enumerate(ctx: &Ctx) -> Vec<Case> {
     let mut v = vec![];
-    let mut full_len = ctx.tier.pick(2, 3);
-    let mut deep_len = ctx.tier.pick(3, 4);
+    // explicit batches: every dimension up to `full_len`; up to `deep_len` without the dimensions that repeat a
+    // code path already covered (reopening placements, BIGINT key, schema table, insert_batch_into_schema =
+    // the body of insert_batch)
+    let mut full_len = ctx.tier.pick(1, 3);
+    let mut deep_len = ctx.tier.pick(2, 4);
     if let Some(l) = ctx.opt("len").and_then(|s| s.parse::<usize>().ok()) {
         full_len = l;
         deep_len = l;
     }
     let only_api = ctx.opt("api").and_then(Api::parse);
     let only_kind = ctx.opt("kind").and_then(Kind::parse);
+    let quick = ctx.quick();
     let mut push = |c: Case| {
         if only_api.map(|a| a == c.api).unwrap_or(true) && only_kind.map(|k| k == c.kind).unwrap_or(true) && combos_allowed(c.kind, c.pre) {
             v.push(c);
         }
     };
     for b in explicit_batches(deep_len) {
-        // the longest batches only with the two non-reopening placements
-        let pres: &[Pre] = if b.len() <= full_len { &PRES } else { &[Pre::None, Pre::Rows] };
+        let deep = b.len() > full_len;
+        let pres: &[Pre] = if deep { &[Pre::None, Pre::Rows] } else { &PRES };
         for &pre in pres {
             for kind in KINDS {
-                // the deep level leaves out the two kinds that repeat another kind's access path
-                if b.len() > full_len && matches!(kind, Kind::BigPk | Kind::InSchema) {
+                if deep && matches!(kind, Kind::BigPk | Kind::InSchema) {
                     continue;
                 }
                 for api in apis_for(kind) {
-                    push(Case { api, kind, pre, batch: BatchSpec::Explicit(b.clone()) });
+                    if deep && api == Api::BatchSchema {
+                        continue;
+                    }
+                    push(Case { api, kind, pre, batch: BatchSpec::Explicit(b.clone()), skip: false });
                 }
             }
         }
@@ -1003,15 +1031,25 @@ fn enumerate(ctx: &Ctx) -> Vec<Case> {
                 continue;
             }
             for pre in PRES {
-                if pre.reopens() && !(n == 2 || n == 64 || (!ctx.quick() && n == 700)) {
-                    continue;
-                }
                 for kind in KINDS {
-                    if n >= 5000 && matches!(kind, Kind::BigPk | Kind::InSchema | Kind::NotNull) {
-                        continue;
-                    }
                     for api in apis_for(kind) {
-                        push(Case { api, kind, pre, batch: BatchSpec::Gen { order, n } });
+                        let keep = if quick {
+                            // the quick tier keeps one representative per code path at every size
+                            let core_kind = matches!(kind, Kind::Plain | Kind::Pk | Kind::Unique | Kind::SecIdx | Kind::AutoInc);
+                            api != Api::BatchSchema
+                                && match n {
+                                    0 | 1 => !pre.reopens(),
+                                    2 => pre.reopens(),
+                                    63 | 65 => core_kind && !pre.reopens() && order != Order::DupLast,
+                                    64 => core_kind && pre != Pre::ReopenEmpty,
+                                    _ => matches!(kind, Kind::Plain | Kind::Pk | Kind::SecIdx) && !pre.reopens() && order != Order::Rev,
+                                }
+                        } else {
+                            (!pre.reopens() || matches!(n, 2 | 64 | 700)) && (n < 5000 || !matches!(kind, Kind::BigPk | Kind::InSchema | Kind::NotNull))
+                        };
+                        if keep {
+                            push(Case { api, kind, pre, batch: BatchSpec::Gen { order, n }, skip: false });
+                        }
                     }
                 }
             }
@@ -1020,12 +1058,19 @@ fn enumerate(ctx: &Ctx) -> Vec<Case> {
     v
 }
 
-/// Known-broken (api, kind, pre, batch) regions listed in findings.d/C43.json.  A case inside such a region
-/// diverges at (or before) its bulk step, so nothing behind the defect is explored; the regions are kept in
-/// the run (they are the detecting pass) and the rest of the space is what the `clean` counters describe.
-fn known_region(c: &Case) -> Option<&'static str> {
-    let _ = c;
-    None
+/// shrink, re-run the minimal case for its own expected/observed texts, record the violation
+fn report(sh: &mut Shrinker, ctx: &Ctx, c: &Case, v: &Viol, szs: &[usize], plant: Plant, rep: &mut Reporter) {
+    let min = sh.shrink(c, v);
+    let (mc, mv) = if &min == c {
+        (c.clone(), v.clone())
+    } else {
+        match run_case(&ctx.scratch, &min, plant).viol {
+            Some(mv) if mv.step == v.step && mv.layer == v.layer => (min, mv),
+            _ => (c.clone(), v.clone()),
+        }
+    };
+    let sig = signature(&mc, &mv, szs);
+    rep.violation("C43", &mv.layer, &sig, || mc.json(), &mv.expected, &mv.observed);
 }
 
 struct C43;
@@ -1049,15 +1094,26 @@ impl Check for C43 {
         let cases = enumerate(ctx);
         let plant = Plant::from_ctx(ctx);
         let szs = sizes(ctx);
-        rep.bound("explicit batch length (all placements / non-reopening placements only)", json!([ctx.tier.pick(2, 3), ctx.tier.pick(3, 4)]));
+        rep.bound("explicit batch length (every dimension / without reopening placements, BIGINT key, schema table, insert_batch_into_schema)", json!([ctx.tier.pick(1, 3), ctx.tier.pick(2, 4)]));
         rep.bound("row alphabet", json!(ALPHA.iter().map(show_r2).collect::<Vec<_>>()));
         rep.bound("pre rows", json!(PRE_ROWS.iter().map(show_r2).collect::<Vec<_>>()));
         rep.bound("generated sizes", json!(szs));
         rep.bound("apis", json!(APIS.iter().map(|a| a.name()).collect::<Vec<_>>()));
         rep.bound("table kinds", json!(KINDS.iter().map(|k| k.ddl()).collect::<Vec<_>>()));
         rep.bound("cases", json!(cases.len()));
-        for c in ["rows_loaded", "plan:index", "api-calls:cached-plan", "mixed-batch", "fully-compared histories", "err:primary-key", "err:unique"] {
+        for c in ["rows_loaded", "plan:index", "api-calls:cached-plan", "fully-compared histories", "second-look histories fully compared", "err:primary-key", "err:unique", "err:not-null"] {
             rep.expect_nonzero(c);
+        }
+        if ctx.opt("dry").is_some() {
+            // sizing aid: count the cases only
+            let n = (0..cases.len()).filter(|i| ctx.mine(*i as u64)).count() as u64;
+            rep.bulk(n, 0);
+            for (i, c) in cases.iter().enumerate() {
+                if ctx.mine(i as u64) {
+                    rep.count(&format!("dry:{}", match &c.batch { BatchSpec::Explicit(b) => format!("explicit-len{}", b.len()), BatchSpec::Gen { n, .. } => format!("gen-{n}") }), 1);
+                }
+            }
+            return;
         }
         let mut sh = Shrinker { scratch: &ctx.scratch, plant, sizes: szs.clone(), cache: BTreeMap::new(), runs: 0 };
         for (i, c) in cases.iter().enumerate() {
@@ -1090,9 +1146,6 @@ impl Check for C43 {
             for n in &o.notes {
                 rep.count(n, 1);
             }
-            if known_region(c).is_none() {
-                rep.count("cases outside the known-broken regions", 1);
-            }
             rep.sample(|| c.json());
             match &o.viol {
                 None => {
@@ -1112,18 +1165,29 @@ impl Check for C43 {
                         rep.note(&format!("harness problem: {} / {}", v.expected, v.observed));
                         continue;
                     }
-                    let min = sh.shrink(c, v);
-                    // the verdict of the minimal case (same step and layer by construction)
-                    let (mc, mv) = if &min == c {
-                        (c.clone(), v.clone())
-                    } else {
-                        match run_case(&ctx.scratch, &min, plant).viol {
-                            Some(mv) => (min, mv),
-                            None => (c.clone(), v.clone()),
+                    report(&mut sh, ctx, c, v, &szs, plant, rep);
+                    // the divergence is one of the known step-level defects of this API: look behind it
+                    if c.api.skipped().contains(&v.step) {
+                        let c2 = Case { skip: true, ..c.clone() };
+                        let o2 = run_case(&ctx.scratch, &c2, plant);
+                        rep.case(vcore::util::hash_of(&c2), nrows > 0);
+                        rep.add_transitions(o2.steps + 1);
+                        rep.add_traces_validated(1);
+                        rep.add_states(o2.steps);
+                        rep.count("second-look histories (known-divergent steps left out)", 1);
+                        match &o2.viol {
+                            None => {
+                                if o2.notes.is_empty() {
+                                    rep.count("second-look histories fully compared", 1);
+                                }
+                            }
+                            Some(v2) if v2.layer != "harness" => {
+                                rep.outcome(&format!("{}/{}: second look differs at {} ({})", c.api.name(), c.kind.name(), v2.step, v2.layer));
+                                report(&mut sh, ctx, &c2, v2, &szs, plant, rep);
+                            }
+                            _ => {}
                         }
-                    };
-                    let sig = signature(&mc, &mv, &szs);
-                    rep.violation("C43", &mv.layer, &sig, || mc.json(), &mv.expected, &mv.observed);
+                    }
                 }
             }
         }
